@@ -29,7 +29,7 @@
 (* fields; nil pointer = Nil; slices = sequences; strings = code points.    *)
 (*                                                                         *)
 (* PRINTER.  W<Type>(s, e) is e.writeTo(s): s is the strings.Builder so far *)
-(* (Index.writeTo inspects its last byte).  Print(q) = q.String().          *)
+(* (Index.writeTo inspects its last byte).  PrintQ(q) = q.String().          *)
 (***************************************************************************)
 EXTENDS Lexer
 
@@ -601,191 +601,211 @@ EncCp(c) ==
   ELSE IF c >= 32 /\ c <= 126 /\ c # 34 /\ c # 92 THEN <<c>>
   ELSE CASE c = 34 -> <<92, 34>> [] c = 92 -> <<92, 92>> [] c = 8 -> <<92, 98>> [] c = 12 -> <<92, 102>>
          [] c = 10 -> <<92, 110>> [] c = 13 -> <<92, 114>> [] c = 9 -> <<92, 116>>
-         [] OTHER -> S_u00 \o <<HexDigit(c \div 16), HexDigit(c % 16)>>
+         [] OTHER -> S_u00 \o <<HexDigit(c \div 16), HexDigit((c % 16))>>
 RECURSIVE EncCps(_, _)
 EncCps(cs, i) == IF i > Len(cs) THEN <<>> ELSE EncCp(cs[i]) \o EncCps(cs, i + 1)
 JsonStr(cs) == <<34>> \o EncCps(cs, 1) \o <<34>>
 
-RECURSIVE WQuery(_, _), WImports(_, _, _), WFuncDefs(_, _, _), WFuncDef(_, _), WTerm(_, _), WSuffixes(_, _, _),
-          WSuffix(_, _), WIndex(_, _), WIndexSuffix(_, _), WString(_, _), WStringParts(_, _, _), WPattern(_, _),
-          WPatterns(_, _, _), WPatObjs(_, _, _), WPatObj(_, _), WBindPatterns(_, _, _), WArgs(_, _, _),
-          WObjKVs(_, _, _), WObjKV(_, _), WIf(_, _), WElifs(_, _, _), WConstTerm(_, _), WConstObject(_, _),
-          WConstKVs(_, _, _), WConstElems(_, _, _)
+RECURSIVE WQuery(_, _, _), WImports(_, _, _, _), WFuncDefs(_, _, _, _), WFuncDef(_, _, _), WTerm(_, _, _), WSuffixes(_, _, _, _),
+          WSuffix(_, _, _), WIndex(_, _, _), WIndexSuffix(_, _, _), WString(_, _, _), WStringParts(_, _, _, _), WPattern(_, _, _),
+          WPatterns(_, _, _, _), WPatObjs(_, _, _, _), WPatObj(_, _, _), WBindPatterns(_, _, _, _), WArgs(_, _, _, _),
+          WObjKVs(_, _, _, _), WObjKV(_, _, _), WIf(_, _, _), WElifs(_, _, _, _), WConstTerm(_, _, _), WConstObject(_, _, _),
+          WConstKVs(_, _, _, _), WConstElems(_, _, _, _)
 
-WQuery(s, e) ==
-  LET s1 == IF IsNil(e.Meta) THEN s ELSE WConstObject(s \o S_module, e.Meta) \o S_semnl
-      s2 == WImports(s1, e.Imports, 1)
-      s3 == WFuncDefs(s2, e.FuncDefs, 1)
-  IN IF ~IsNil(e.Term) THEN WTerm(s3, e.Term)
+WQuery(d, s, e) ==
+  LET s1 == IF IsNil(e.Meta) THEN s ELSE WConstObject(d, s \o S_module, e.Meta) \o S_semnl
+      s2 == WImports(d, s1, e.Imports, 1)
+      s3 == WFuncDefs(d, s2, e.FuncDefs, 1)
+  IN IF ~IsNil(e.Term) THEN WTerm(d, s3, e.Term)
      ELSE IF ~IsNil(e.Right) THEN
-       LET a == WQuery(s3, e.Left)
+       LET a == WQuery(d, s3, e.Left)
            b == IF e.Op # "," THEN Append(a, 32) ELSE a
-           c == WBindPatterns(b, e.Patterns, 1)
-       IN WQuery(c \o OpBytes(e.Op) \o <<32>>, e.Right)
+           c == WBindPatterns(d, b, e.Patterns, 1)
+       IN WQuery(d, c \o OpBytes(e.Op) \o <<32>>, e.Right)
      ELSE s3
 
-WBindPatterns(s, ps, i) ==
+WBindPatterns(d, s, ps, i) ==
   IF i > Len(ps) THEN s
-  ELSE WBindPatterns(Append(WPattern(s \o (IF i = 1 THEN S_assp ELSE S_daltsp), ps[i]), 32), ps, i + 1)
+  ELSE WBindPatterns(d, Append(WPattern(d, s \o (IF i = 1 THEN S_assp ELSE S_daltsp), ps[i]), 32), ps, i + 1)
 
-WImports(s, ims, i) ==
+WImports(d, s, ims, i) ==
   IF i > Len(ims) THEN s
   ELSE LET im == ims[i]
-           a == IF im.ImportPath # <<>>
+           \* query.go tests ImportPath != "" (deviation "emptyImport"); the alias is what tells them apart
+           isImport == IF "emptyImport" \in d THEN im.ImportPath # <<>> ELSE im.ImportAlias # <<>>
+           a == IF isImport
                 THEN s \o S_import \o JsonStr(im.ImportPath) \o S_as \o im.ImportAlias
                 ELSE s \o S_include \o JsonStr(im.IncludePath)
-           b == IF IsNil(im.Meta) THEN a ELSE WConstObject(Append(a, 32), im.Meta)
-       IN WImports(b \o S_semnl, ims, i + 1)
+           b == IF IsNil(im.Meta) THEN a ELSE WConstObject(d, Append(a, 32), im.Meta)
+       IN WImports(d, b \o S_semnl, ims, i + 1)
 
-WFuncDefs(s, fds, i) == IF i > Len(fds) THEN s ELSE WFuncDefs(Append(WFuncDef(s, fds[i]), 32), fds, i + 1)
+WFuncDefs(d, s, fds, i) == IF i > Len(fds) THEN s ELSE WFuncDefs(d, Append(WFuncDef(d, s, fds[i]), 32), fds, i + 1)
 
 RECURSIVE JoinNames(_, _, _)
 JoinNames(s, xs, i) == IF i > Len(xs) THEN s ELSE JoinNames((IF i > 1 THEN s \o S_semsp ELSE s) \o xs[i], xs, i + 1)
 
-WFuncDef(s, e) ==
+WFuncDef(d, s, e) ==
   LET a == s \o S_def \o e.Name
       b == IF Len(e.Args) > 0 THEN Append(JoinNames(Append(a, 40), e.Args, 1), 41) ELSE a
-  IN Append(WQuery(b \o S_colsp, e.Body), 59)
+  IN Append(WQuery(d, b \o S_colsp, e.Body), 59)
 
-WTerm(s, e) ==
+WTerm(d, s, e) ==
   LET ty == e.Type
       a == CASE ty = "TermTypeIdentity" -> Append(s, 46)
              [] ty = "TermTypeRecurse" -> s \o S_dotdot
              [] ty = "TermTypeNull" -> s \o S_null
              [] ty = "TermTypeTrue" -> s \o S_true
              [] ty = "TermTypeFalse" -> s \o S_false
-             [] ty = "TermTypeIndex" -> WIndex(s, e.Index)
+             [] ty = "TermTypeIndex" -> WIndex(d, s, e.Index)
              [] ty = "TermTypeFunc" ->
                   LET f == e.Func  n == s \o f.Name IN
-                  IF Len(f.Args) > 0 THEN Append(WArgs(Append(n, 40), f.Args, 1), 41) ELSE n
+                  IF Len(f.Args) > 0 THEN Append(WArgs(d, Append(n, 40), f.Args, 1), 41) ELSE n
              [] ty = "TermTypeObject" ->
                   IF Len(e.Object.KeyVals) = 0 THEN s \o S_braces
-                  ELSE WObjKVs(s \o S_lbracesp, e.Object.KeyVals, 1) \o S_sprbrace
+                  ELSE WObjKVs(d, s \o S_lbracesp, e.Object.KeyVals, 1) \o S_sprbrace
              [] ty = "TermTypeArray" ->
-                  Append(IF IsNil(e.Array.Query) THEN Append(s, 91) ELSE WQuery(Append(s, 91), e.Array.Query), 93)
+                  Append(IF IsNil(e.Array.Query) THEN Append(s, 91) ELSE WQuery(d, Append(s, 91), e.Array.Query), 93)
              [] ty = "TermTypeNumber" -> s \o e.Number
-             [] ty = "TermTypeUnary" -> WTerm(s \o OpBytes(e.Unary.Op), e.Unary.Term)
+             [] ty = "TermTypeUnary" -> WTerm(d, s \o OpBytes(e.Unary.Op), e.Unary.Term)
              [] ty = "TermTypeFormat" ->
-                  IF IsNil(e.Str) THEN s \o e.Format ELSE WString(Append(s \o e.Format, 32), e.Str)
-             [] ty = "TermTypeString" -> WString(s, e.Str)
-             [] ty = "TermTypeIf" -> WIf(s, e.If)
+                  IF IsNil(e.Str) THEN s \o e.Format ELSE WString(d, Append(s \o e.Format, 32), e.Str)
+             [] ty = "TermTypeString" -> WString(d, s, e.Str)
+             [] ty = "TermTypeIf" -> WIf(d, s, e.If)
              [] ty = "TermTypeTry" ->
-                  LET b == WQuery(s \o S_try, e.Try.Body) IN
-                  IF IsNil(e.Try.Catch) THEN b ELSE WQuery(b \o S_catch, e.Try.Catch)
+                  LET b == WQuery(d, s \o S_try, e.Try.Body) IN
+                  IF IsNil(e.Try.Catch) THEN b ELSE WQuery(d, b \o S_catch, e.Try.Catch)
              [] ty = "TermTypeReduce" ->
                   LET r == e.Reduce
-                      b == WPattern(WQuery(s \o S_reduce, r.Query) \o S_as, r.Pattern) \o S_spparen
-                  IN Append(WQuery(WQuery(b, r.Start) \o S_semsp, r.Update), 41)
+                      b == WPattern(d, WQuery(d, s \o S_reduce, r.Query) \o S_as, r.Pattern) \o S_spparen
+                  IN Append(WQuery(d, WQuery(d, b, r.Start) \o S_semsp, r.Update), 41)
              [] ty = "TermTypeForeach" ->
                   LET r == e.Foreach
-                      b == WPattern(WQuery(s \o S_foreach, r.Query) \o S_as, r.Pattern) \o S_spparen
-                      c == WQuery(WQuery(b, r.Start) \o S_semsp, r.Update)
-                  IN Append(IF IsNil(r.Extract) THEN c ELSE WQuery(c \o S_semsp, r.Extract), 41)
-             [] ty = "TermTypeLabel" -> WQuery(s \o S_label \o e.Label.Ident \o S_sppipesp, e.Label.Body)
+                      b == WPattern(d, WQuery(d, s \o S_foreach, r.Query) \o S_as, r.Pattern) \o S_spparen
+                      c == WQuery(d, WQuery(d, b, r.Start) \o S_semsp, r.Update)
+                  IN Append(IF IsNil(r.Extract) THEN c ELSE WQuery(d, c \o S_semsp, r.Extract), 41)
+             [] ty = "TermTypeLabel" -> WQuery(d, s \o S_label \o e.Label.Ident \o S_sppipesp, e.Label.Body)
              [] ty = "TermTypeBreak" -> s \o S_break \o e.Break
-             [] ty = "TermTypeQuery" -> Append(WQuery(Append(s, 40), e.Query), 41)
+             [] ty = "TermTypeQuery" -> Append(WQuery(d, Append(s, 40), e.Query), 41)
              [] OTHER -> s
-  IN WSuffixes(a, e.SuffixList, 1)
+      \* query.go writes a bracket suffix bare, also as the first suffix of an identity term, where
+      \* ".[" then reads as an index TERM (deviation "dotBracket"); the repaired printer writes ". .[0]"
+      sl == e.SuffixList
+      bracketFirst == ty = "TermTypeIdentity" /\ Len(sl) > 0 /\ ~IsNil(sl[1].Index)
+                      /\ sl[1].Index.Name = <<>> /\ IsNil(sl[1].Index.Str)
+  IN IF bracketFirst /\ "dotBracket" \notin d
+     THEN WSuffixes(d, WIndex(d, a, sl[1].Index), sl, 2)
+     ELSE WSuffixes(d, a, sl, 1)
 
-WSuffixes(s, xs, i) == IF i > Len(xs) THEN s ELSE WSuffixes(WSuffix(s, xs[i]), xs, i + 1)
+WSuffixes(d, s, xs, i) == IF i > Len(xs) THEN s ELSE WSuffixes(d, WSuffix(d, s, xs[i]), xs, i + 1)
 
-WSuffix(s, e) ==
+WSuffix(d, s, e) ==
   IF ~IsNil(e.Index) THEN
-    (IF e.Index.Name # <<>> \/ ~IsNil(e.Index.Str) THEN WIndex(s, e.Index) ELSE WIndexSuffix(s, e.Index))
+    (IF e.Index.Name # <<>> \/ ~IsNil(e.Index.Str) THEN WIndex(d, s, e.Index) ELSE WIndexSuffix(d, s, e.Index))
   ELSE IF e.Iter THEN s \o S_brackets
   ELSE IF e.Optional THEN Append(s, 63)
   ELSE s
 
 \* Index.writeTo: ". .x" != "..x" and "0 .x" != "0.x"
-WIndex(s, e) ==
+WIndex(d, s, e) ==
   LET a == IF Len(s) > 0 /\ (s[Len(s)] = 46 \/ IsDigit(s[Len(s)])) THEN Append(s, 32) ELSE s
-  IN WIndexSuffix(Append(a, 46), e)
+  IN WIndexSuffix(d, Append(a, 46), e)
 
-WIndexSuffix(s, e) ==
+WIndexSuffix(d, s, e) ==
   IF e.Name # <<>> THEN s \o e.Name
-  ELSE IF ~IsNil(e.Str) THEN WString(s, e.Str)
+  ELSE IF ~IsNil(e.Str) THEN WString(d, s, e.Str)
   ELSE
     LET a == Append(s, 91)
         b == IF e.IsSlice THEN
-               LET b1 == IF IsNil(e.Start) THEN a ELSE WQuery(a, e.Start)
+               LET b1 == IF IsNil(e.Start) THEN a ELSE WQuery(d, a, e.Start)
                    b2 == Append(b1, 58)
-               IN IF IsNil(e.End) THEN b2 ELSE WQuery(b2, e.End)
-             ELSE WQuery(a, e.Start)
+               IN IF IsNil(e.End) THEN b2 ELSE WQuery(d, b2, e.End)
+             ELSE WQuery(d, a, e.Start)
     IN Append(b, 93)
 
 \* String.writeTo: Queries == nil is the plain literal
-WString(s, e) ==
+WString(d, s, e) ==
   IF Len(e.Queries) = 0 THEN s \o JsonStr(e.Str)
-  ELSE Append(WStringParts(Append(s, 34), e.Queries, 1), 34)
+  ELSE Append(WStringParts(d, Append(s, 34), e.Queries, 1), 34)
 
-WStringParts(s, qs, i) ==
+WStringParts(d, s, qs, i) ==
   IF i > Len(qs) THEN s
   ELSE LET q == qs[i] IN
-       IF IsNil(q.Term.Str) THEN WStringParts(WQuery(Append(s, 92), q), qs, i + 1)
-       ELSE LET es == WQuery(<<>>, q) IN WStringParts(s \o SubSeq(es, 2, Len(es) - 1), qs, i + 1)
+       IF IsNil(q.Term.Str) THEN WStringParts(d, WQuery(d, Append(s, 92), q), qs, i + 1)
+       ELSE LET es == WQuery(d, <<>>, q) IN WStringParts(d, s \o SubSeq(es, 2, Len(es) - 1), qs, i + 1)
 
-WArgs(s, qs, i) == IF i > Len(qs) THEN s ELSE WArgs(WQuery(IF i > 1 THEN s \o S_semsp ELSE s, qs[i]), qs, i + 1)
+WArgs(d, s, qs, i) == IF i > Len(qs) THEN s ELSE WArgs(d, WQuery(d, IF i > 1 THEN s \o S_semsp ELSE s, qs[i]), qs, i + 1)
 
-WPattern(s, e) ==
+WPattern(d, s, e) ==
   IF e.Name # <<>> THEN s \o e.Name
-  ELSE IF Len(e.Array) > 0 THEN Append(WPatterns(Append(s, 91), e.Array, 1), 93)
-  ELSE IF Len(e.Object) > 0 THEN Append(WPatObjs(Append(s, 123), e.Object, 1), 125)
+  ELSE IF Len(e.Array) > 0 THEN Append(WPatterns(d, Append(s, 91), e.Array, 1), 93)
+  ELSE IF Len(e.Object) > 0 THEN Append(WPatObjs(d, Append(s, 123), e.Object, 1), 125)
   ELSE s
 
-WPatterns(s, ps, i) == IF i > Len(ps) THEN s ELSE WPatterns(WPattern(IF i > 1 THEN s \o S_commasp ELSE s, ps[i]), ps, i + 1)
-WPatObjs(s, ps, i) == IF i > Len(ps) THEN s ELSE WPatObjs(WPatObj(IF i > 1 THEN s \o S_commasp ELSE s, ps[i]), ps, i + 1)
+WPatterns(d, s, ps, i) == IF i > Len(ps) THEN s ELSE WPatterns(d, WPattern(d, IF i > 1 THEN s \o S_commasp ELSE s, ps[i]), ps, i + 1)
+WPatObjs(d, s, ps, i) == IF i > Len(ps) THEN s ELSE WPatObjs(d, WPatObj(d, IF i > 1 THEN s \o S_commasp ELSE s, ps[i]), ps, i + 1)
 
-WPatObj(s, e) ==
+WPatObj(d, s, e) ==
   LET a == IF e.Key # <<>> THEN s \o e.Key
-           ELSE IF ~IsNil(e.KeyString) THEN WString(s, e.KeyString)
-           ELSE IF ~IsNil(e.KeyQuery) THEN Append(WQuery(Append(s, 40), e.KeyQuery), 41)
+           ELSE IF ~IsNil(e.KeyString) THEN WString(d, s, e.KeyString)
+           ELSE IF ~IsNil(e.KeyQuery) THEN Append(WQuery(d, Append(s, 40), e.KeyQuery), 41)
            ELSE s
-  IN IF IsNil(e.Val) THEN a ELSE WPattern(a \o S_colsp, e.Val)
+  IN IF IsNil(e.Val) THEN a ELSE WPattern(d, a \o S_colsp, e.Val)
 
-WObjKVs(s, kvs, i) == IF i > Len(kvs) THEN s ELSE WObjKVs(WObjKV(IF i > 1 THEN s \o S_commasp ELSE s, kvs[i]), kvs, i + 1)
+WObjKVs(d, s, kvs, i) == IF i > Len(kvs) THEN s ELSE WObjKVs(d, WObjKV(d, IF i > 1 THEN s \o S_commasp ELSE s, kvs[i]), kvs, i + 1)
 
-WObjKV(s, e) ==
+WObjKV(d, s, e) ==
   LET a == IF e.Key # <<>> THEN s \o e.Key
-           ELSE IF ~IsNil(e.KeyString) THEN WString(s, e.KeyString)
-           ELSE IF ~IsNil(e.KeyQuery) THEN Append(WQuery(Append(s, 40), e.KeyQuery), 41)
+           ELSE IF ~IsNil(e.KeyString) THEN WString(d, s, e.KeyString)
+           ELSE IF ~IsNil(e.KeyQuery) THEN Append(WQuery(d, Append(s, 40), e.KeyQuery), 41)
            ELSE s
-  IN IF IsNil(e.Val) THEN a ELSE WQuery(a \o S_colsp, e.Val)
+  IN IF IsNil(e.Val) THEN a ELSE WQuery(d, a \o S_colsp, e.Val)
 
-WIf(s, e) ==
-  LET a == WQuery(WQuery(s \o S_if, e.Cond) \o S_then, e.Then)
-      b == WElifs(a, e.Elif, 1)
-      c == IF IsNil(e.Else) THEN b ELSE WQuery(b \o S_else, e.Else)
+WIf(d, s, e) ==
+  LET a == WQuery(d, WQuery(d, s \o S_if, e.Cond) \o S_then, e.Then)
+      b == WElifs(d, a, e.Elif, 1)
+      c == IF IsNil(e.Else) THEN b ELSE WQuery(d, b \o S_else, e.Else)
   IN c \o S_end
 
-WElifs(s, es, i) ==
+WElifs(d, s, es, i) ==
   IF i > Len(es) THEN s
-  ELSE WElifs(WQuery(WQuery(Append(s, 32) \o S_elif, es[i].Cond) \o S_then, es[i].Then), es, i + 1)
+  ELSE WElifs(d, WQuery(d, WQuery(d, Append(s, 32) \o S_elif, es[i].Cond) \o S_then, es[i].Then), es, i + 1)
 
-WConstTerm(s, e) ==
-  IF ~IsNil(e.Object) THEN WConstObject(s, e.Object)
-  ELSE IF ~IsNil(e.Array) THEN Append(WConstElems(Append(s, 91), e.Array.Elems, 1), 93)
+WConstTerm(d, s, e) ==
+  IF ~IsNil(e.Object) THEN WConstObject(d, s, e.Object)
+  ELSE IF ~IsNil(e.Array) THEN Append(WConstElems(d, Append(s, 91), e.Array.Elems, 1), 93)
   ELSE IF e.Number # <<>> THEN s \o e.Number
   ELSE IF e.Null THEN s \o S_null
   ELSE IF e.True THEN s \o S_true
   ELSE IF e.False THEN s \o S_false
   ELSE s \o JsonStr(e.Str)
 
-WConstElems(s, es, i) == IF i > Len(es) THEN s ELSE WConstElems(WConstTerm(IF i > 1 THEN s \o S_commasp ELSE s, es[i]), es, i + 1)
+WConstElems(d, s, es, i) == IF i > Len(es) THEN s ELSE WConstElems(d, WConstTerm(d, IF i > 1 THEN s \o S_commasp ELSE s, es[i]), es, i + 1)
 
-WConstObject(s, e) ==
+WConstObject(d, s, e) ==
   IF Len(e.KeyVals) = 0 THEN s \o S_braces
-  ELSE WConstKVs(s \o S_lbracesp, e.KeyVals, 1) \o S_sprbrace
+  ELSE WConstKVs(d, s \o S_lbracesp, e.KeyVals, 1) \o S_sprbrace
 
-WConstKVs(s, kvs, i) ==
+WConstKVs(d, s, kvs, i) ==
   IF i > Len(kvs) THEN s
   ELSE LET kv == kvs[i]
            a == IF i > 1 THEN s \o S_commasp ELSE s
            b == IF kv.Key # <<>> THEN a \o kv.Key ELSE a \o JsonStr(kv.KeyString)
-       IN WConstKVs(WConstTerm(b \o S_colsp, kv.Val), kvs, i + 1)
+       IN WConstKVs(d, WConstTerm(d, b \o S_colsp, kv.Val), kvs, i + 1)
 
-Print(q) == WQuery(<<>>, q)
+(* The printer of query.go deviates from a printer that satisfies the        *)
+(* property in two places; each is a named switch (DESIGN 4: a mismatch is  *)
+(* attributed to a finding iff the real behaviour equals the specification  *)
+(* with that deviation on and the law holds with it off).                   *)
+(*   emptyImport  `import "" as a;` is printed as `include "";`             *)
+(*   dotBracket   `. .[0]` (identity term with a bracket suffix) is printed *)
+(*                as `.[0]`, which is an index term                         *)
+CodeDeviations == {"emptyImport", "dotBracket"}
+PrintDev(d, q) == WQuery(d, <<>>, q)
+PrintQ(q) == PrintDev(CodeDeviations, q)           \* what query.go prints
+PrintRepaired(q) == PrintDev({}, q)
 
 ----------------------------------------------------------------------------
 (* The round-trip law of the property, stated on the specification.          *)
-RoundTrips(q) == LET r == Parse(Print(q)) IN r.ok /\ r.n = q
+RoundTripsWith(d, q) == LET r == Parse(PrintDev(d, q)) IN r.ok /\ r.n = q
+RoundTrips(q) == RoundTripsWith(CodeDeviations, q)
 =============================================================================
